@@ -72,6 +72,9 @@ var props = []*propSpec{
 }
 
 func init() {
+	props = append(props, &propSpec{ID: "C17", Level: "exploration", Clauses: []string{"C17."},
+		Scens:  []scenSpec{{Name: "hardlimit", Weight: 1}},
+		QuickS: 40, ThorS: 600, Rule: ruleCommon})
 	props = append(props, &propSpec{ID: "C10", Level: "exploration", Clauses: []string{"C10."},
 		Scens:  []scenSpec{{Name: "fmb", Weight: 3}, {Name: "backend", Weight: 1}, {Name: "read", Weight: 1}},
 		QuickS: 40, ThorS: 600, Rule: ruleCommon})
